@@ -72,6 +72,9 @@ const EXTREME_TEMPLATES: &[&str] = &[
     "\"{A:B}\"",
     "\"{A:>B}\"",
     "\"{A:.Bf}\"",
+    "A m\nfn f() = ans\n\"str\"\nf() + 1 m",
+    "A\nfn g(x) = x * _\ntrue\ng(B)",
+    "B s\nlet k = ans\nfn h() = k + ans\n[1]\nh()",
 ];
 
 const EXTREME_VALUES: &[&str] = &[
@@ -399,8 +402,36 @@ fn has_polymorphic_literal_with_unit(text: &str) -> bool {
     false
 }
 
+/// Does a function definition in the text mention `ans` or `_` in its body? The body is
+/// type-checked against the type `ans` had when the function was defined but reads the
+/// session's current last result when it is called (recorded finding).
+fn function_body_mentions_ans(text: &str) -> bool {
+    text.lines().any(|l| {
+        let l = l.trim_start();
+        if !l.starts_with("fn ") {
+            return false;
+        }
+        let Some((_, body)) = l.split_once('=') else { return false };
+        let mut word = String::new();
+        for ch in body.chars().chain(" ".chars()) {
+            if ch.is_alphanumeric() || ch == '_' {
+                word.push(ch);
+            } else {
+                if word == "ans" || word == "_" {
+                    return true;
+                }
+                word.clear();
+            }
+        }
+        false
+    })
+}
+
 fn panic_signature(text: &str, loc: &str, msg: &str) -> String {
     let file = loc.rsplit_once(':').map(|(f, _)| f).unwrap_or(loc);
+    if file.ends_with("vm.rs") && msg.starts_with("Expected ") && function_body_mentions_ans(text) {
+        return "panic:ans-in-function-body:value of another type on the VM stack".to_string();
+    }
     if msg.contains("IncompatibleUnits(") && has_polymorphic_literal_with_unit(text) {
         // one root cause, many unwrap sites (library functions and VM operations that rely on
         // the checker having established a Scalar or a matching dimension)
@@ -431,6 +462,13 @@ fn check_input(text: &str, kind: &str, session: u8, st: &mut Stats) -> CheckResu
     if std::env::var("VERIF_TRACE").is_ok() {
         eprintln!("TRACE {sess} {text:?}");
     }
+    // an evaluation that never returns is reported by the watchdog thread (engine.rs)
+    let token = watch_begin(
+        "C08",
+        "inputs",
+        json!({"text_only": text, "session": session}),
+        format!("input {:?} ({kind}, {sess} session)", text),
+    );
     // CPU time of this thread, not wall-clock time: the verdict must not depend on load
     let started = thread_cpu_seconds();
     let o = eval_with(
@@ -442,6 +480,7 @@ fn check_input(text: &str, kind: &str, session: u8, st: &mut Stats) -> CheckResu
         },
     );
     let elapsed = thread_cpu_seconds() - started;
+    watch_end(token);
     if let Some((loc, msg)) = &o.panic {
         return Err(Failure::new(
             panic_signature(text, loc, msg),
